@@ -532,6 +532,34 @@ impl SharedNetInfo {
         SharedNetInfo(std::sync::Arc::new(tokio::sync::RwLock::new(ni)))
     }
 
+    /// Builds a fixed interface/route table without talking to netlink (simulation only).
+    #[cfg(erbium_verif)]
+    #[allow(clippy::type_complexity)]
+    pub fn new_sim(
+        interfaces: Vec<(u32, String, Vec<(std::net::IpAddr, u8)>, LinkLayer, u32, bool)>,
+        routes: Vec<RouteInfo>,
+    ) -> Self {
+        let mut ni = NetInfo::new();
+        for (ifidx, name, addresses, lladdr, mtu, multicast) in interfaces {
+            ni.add_interface(
+                ifidx,
+                IfInfo {
+                    name,
+                    addresses,
+                    lladdr,
+                    mtu,
+                    flags: IfFlags(if multicast {
+                        LinkFlags::Multicast
+                    } else {
+                        LinkFlags::empty()
+                    }),
+                },
+            );
+        }
+        ni.routeinfo = routes;
+        SharedNetInfo(std::sync::Arc::new(tokio::sync::RwLock::new(ni)))
+    }
+
     #[allow(dead_code)]
     pub async fn get_interfaces(&self) -> Vec<String> {
         self.0
